@@ -56,7 +56,7 @@ class Forest:
         return 'mz_tree id=%d z=%s' % (self.tid, ','.join(self.par))
 
 
-def msg(F, recv, snd, method, obj, auth=1, ident='ep', claim='-', ts='none', ac=1, ak=1, xz=None, var=None):
+def msg(F, recv, snd, method, obj, auth=1, ident='ep', claim='-', ts='none', ac=1, ak=1, xz=None, var=None, xt=None, xcap=1, xh=1, rep='a'):
     """obj: int zone | 'nz' | ('k', zone).  Computes the model-facing oz= / ce= fields."""
     ce = 0
     if obj == 'nz':
@@ -81,8 +81,23 @@ def msg(F, recv, snd, method, obj, auth=1, ident='ep', claim='-', ts='none', ac=
         extra += ' xz=%d' % xz
     if var:
         extra += ' var=' + var
+    if xt is not None:
+        # forwarding family of event::ExecuteCommand: params.endpoint, capability of the child endpoints, params.host exists
+        extra += ' xt=%s xcap=%d xh=%d' % (xt, xcap, xh)
+    if rep != 'a':
+        extra += ' rep=' + rep
     return 'mz_msg t=%d recv=%d snd=%s auth=%d ident=%s claim=%s m=%s obj=%s oz=%s ce=%d ts=%s ac=%d ak=%d%s' % (
         F.tid, recv, snd, auth, ident, claim, method, tag, oz, ce, ts, ac, ak, extra)
+
+
+def _below(F, q, r):
+    """zone q is r or lies below r"""
+    while True:
+        if q == r:
+            return True
+        if F.par[q] in ('-', 'g'):
+            return False
+        q = int(F.par[q])
 
 
 def generate(seed, tier):
@@ -134,6 +149,40 @@ def generate(seed, tier):
         msgs.append(('variants', F, msg(F, recv, snd, 'pki::UpdateCertificate', 2, auth=auth, ident=ident, var='other')))
         for xz in (2, 3, 1, 5):
             msgs.append(('variants', F, msg(F, recv, snd, 'event::ExecutedCommand', 2, auth=auth, ident=ident, xz=xz)))
+    # ExecuteCommand with an "endpoint" parameter (forwarding branch): receiver 2 has child 3 and grandchild 4.
+    # sender relation x target endpoint (none, unknown, receiver itself, own-zone peer, child, grandchild, parent, sibling,
+    # unrelated) x claimed originZone x checkable (missing / zone 2 / 3 / 4 / global / zone-less) x capability x accept_commands
+    XT = ['-', 'unk', '2a', '2b', '3a', '3b', '4a', '4b', '1a', '0a', '5a', '6b', '7a']
+    for (snd, auth, ident) in senders + [('2a', 1, 'ep')]:
+        for xt in XT:
+            trusted = auth == 1 and ident == 'ep' and snd in ('2b', '2a', '1a')
+            reps = 3 if (trusted and xt in ('3a', '4a', '4b', '2b')) else 1
+            for _ in range(reps):
+                claim = rnd.choice(['-', '-', '1', '3', '4', '2', '0', 'x', '8']) if snd[0] == '2' else rnd.choice(['-', '-', '-', '1', '3', '0'])
+                obj = rnd.choice([2, 3, 4, 4, 8, 'nz', 5])
+                xh = 0 if rnd.random() < 0.15 else 1
+                xcap = 0 if rnd.random() < 0.15 else 1
+                msgs.append(('exec-forward', F, msg(F, recv, snd, 'event::ExecuteCommand', obj, auth=auth, ident=ident, claim=claim,
+                                                    ak=rnd.randint(0, 1), ts=rnd.choice(['none', 'none', 'none', 'new', 'old']),
+                                                    xt=xt, xcap=xcap, xh=xh)))
+    # the receiver is NOT the routing master of its zone (endpoint b; a is): only the master gets relayed copies
+    for (snd, auth, ident) in [('2a', 1, 'ep'), ('1a', 1, 'ep'), ('1b', 1, 'ep'), ('3a', 1, 'ep'), ('0a', 1, 'ep')]:
+        for xt in ['3a', '4b', '2a', '2b', '-', '5a']:
+            msgs.append(('exec-forward', F, msg(F, recv, snd, 'event::ExecuteCommand', rnd.choice([2, 3, 4]), auth=auth, ident=ident,
+                                                claim=rnd.choice(['-', '-', '1', '3']) if snd[0] == '2' else '-',
+                                                ak=rnd.randint(0, 1), xt=xt, xcap=rnd.choice([1, 1, 1, 0]), xh=1, rep='b')))
+    # other receivers: the root (no parent zone), a leaf (nothing below), the unrelated root
+    for r in (0, 1, 4, 6, 3):
+        for _ in range(int(10 * scale)):
+            z = rnd.choice(F.real)
+            snd = '%d%s' % (z, rnd.choice('ab'))
+            if rnd.random() < 0.6:
+                snd = '%d%s' % (rnd.choice([r] + ([int(F.par[r])] if F.par[r] not in '-g' else [])), rnd.choice('ab'))
+            below = [q for q in F.real if q != r and _below(F, q, r)]
+            pool = ['-', 'unk', '%da' % r, '%db' % r] + ['%d%s' % (q, e) for q in below for e in 'ab'] * 2 + ['%da' % rnd.choice(F.real)]
+            msgs.append(('exec-forward', F, msg(F, r, snd, 'event::ExecuteCommand', rnd.choice([q for q in F.real] + ['nz', 8]),
+                                                claim=rnd.choice(['-', '-', str(rnd.choice(F.real)), 'x']), ak=rnd.randint(0, 1),
+                                                xt=rnd.choice(pool), xcap=rnd.choice([1, 1, 1, 0]), xh=rnd.choice([1, 1, 1, 0]))))
     # command endpoint: host k<z> is checked by the first endpoint of z's first child zone
     for z in (0, 1, 2, 3, 6):
         ch = F.children(z)[0]
@@ -206,9 +255,18 @@ def generate(seed, tier):
             if rnd.random() < (0.6 if z == r else 0.4):
                 claim = rnd.choice([str(rnd.randrange(G.n)), str(rnd.randrange(G.n)), 'x', str(r), str(z)])
             xz = rnd.choice(G.real) if m == 'event::ExecutedCommand' else None
+            xkw = {}
+            if m == 'event::ExecuteCommand' and rnd.random() < 0.8:
+                if rnd.random() < 0.7:       # aim at an accepted stage 1: sender from the own or the parent zone
+                    sz = rnd.choice([r] + ([int(G.par[r])] if G.par[r] not in '-g' else []))
+                    snd = '%d%s' % (sz, rnd.choice('ab'))
+                below = [q for q in G.real if _below(G, q, r)]
+                xkw = dict(xt=rnd.choice(['-', 'unk'] + ['%d%s' % (q, e) for q in below for e in 'ab'] * 2 + ['%da' % rnd.choice(G.real)]),
+                           xcap=rnd.choice([1, 1, 1, 0]), xh=rnd.choice([1, 1, 1, 0]))
+                obj = rnd.choice(['nz'] + list(range(G.n)))
             msgs.append(('random-forest', G, msg(G, r, snd, m, obj, auth=auth, ident=ident, claim=claim,
                                                  ts=rnd.choice(['none', 'none', 'none', 'new', 'old']),
-                                                 ac=rnd.randint(0, 1), ak=rnd.randint(0, 1), xz=xz)))
+                                                 ac=rnd.randint(0, 1), ak=rnd.randint(0, 1), xz=xz, **xkw)))
     # pack into cases of ~10 messages per (family, forest); global virtual time increases with the case index
     groups = collections.OrderedDict()
     for fam, G, line in msgs:
